@@ -204,8 +204,8 @@ inductive BStep : BV → BV → List Msg → List BEv → Prop
   /-- `next_bind_request` hands out the oldest queued request as `BindRequest` number `held.length` -/
   | bindNext (v : BV) (b : BindIn) (r : List BindIn) (hq : v.bindq = b :: r) :
       BStep v { v with bindq := r, held := v.held ++ [b] } [] [.shown v.held.length b.fid b.bt b.host b.port]
-  /-- `reply(acc)` on `BindRequest` number `k` -/
-  | reply (v : BV) (k : Nat) (b : BindIn) (acc : Bool) (hk : v.held[k]? = some b) (ho : v.outClosed = false) :
+  /-- `reply(acc)` on `BindRequest` number `k` (which has not been dropped) -/
+  | reply (v : BV) (k : Nat) (b : BindIn) (acc : Bool) (hk : v.held[k]? = some b) (ha : b.alive = true) (ho : v.outClosed = false) :
       BStep v { v with held := v.held.modify k (fun b => { b with replied := true }),
                        outq := v.outq ++ [.frame (if acc then .finish b.fid else .reset b.fid)] } [] [.replied k acc]
   /-- `BindRequest` number `k` is dropped: it rejects itself unless answered -/
@@ -296,3 +296,4 @@ theorem BSim.shrink {l l' : List WsIn} {e e' : EP} {evs : List Ev} (h : Shrinks 
   BSim.one (BStep.shrink _ _ h) rfl hw
 
 end Penguin.BindAll
+
